@@ -185,7 +185,7 @@ def run(F, chk):
         rc.fn(ip)
         oks = [(bi, t) for bi, t in b.calls() if t.get("fn") in FIN_OK]
         # closures (e.g. LocalKey::with) are not expected to carry finish calls
-        to_locals = set(b.named_local("timed_out")) | set(b.named_local("_timed_out"))
+        to_locals = {b.argc}   # on_finish(self, server, client, timed_out): the flag is the last parameter, whatever its name
         key = "on_finish %s|finish_ok guarded" % tname
         if not oks:
             rc.ok(key, b.where(), "no success answer in this task", nontrivial=False)
@@ -216,7 +216,7 @@ def run(F, chk):
         tname = ip.split(" as ")[0].split("::")[-1]
         if tname in EXEMPT:
             continue
-        to_locals = set(b.named_local("timed_out")) | set(b.named_local("_timed_out"))
+        to_locals = {b.argc}   # on_finish(self, server, client, timed_out): the flag is the last parameter, whatever its name
         edge_delta = {}
         for sb, f, t, atom in guards.bool_switches(b):
             if f == t:
@@ -295,7 +295,9 @@ def run(F, chk):
         else:
             # and the count passed depends on a counter incremented in the loop containing the insert
             sl = guards.slice_of_operand(so, inc[0][1]["args"][-1])
-            wc = set(so.named_local("worker_count"))
+            # a counter: a local with an `x = x + 1` definition on a cycle (the per-worker loop)
+            wc = {l for l, ds in so.defs().items() for d in ds
+                  if d[2] == "assign" and d[3]["k"] == "bin" and d[3]["op"].startswith("Add") and d[0] in so.reach_from(so.succ()[d[0]])}
             if sl["locals"] & wc:
                 rd.ok(key, so.where(inc[0][0]), "all paths from the in_flight insertion reach inc_expected_responses(worker_count)")
             else:
